@@ -81,6 +81,7 @@ func (b *decimal) set(s []byte) (ok bool) {
 	// digits
 	sawdot := false
 	sawdigits := false
+	dropped := 0 // integer digits that did not fit in b.d
 	for ; i < len(s); i++ {
 		switch {
 		case s[i] == '_':
@@ -100,6 +101,11 @@ func (b *decimal) set(s []byte) (ok bool) {
 				b.dp--
 				continue
 			}
+			if b.nd >= len(b.d) && !sawdot {
+				// A digit before the decimal point still shifts
+				// the decimal point even if it is not stored.
+				dropped++
+			}
 			if b.nd < len(b.d) {
 				b.d[b.nd] = s[i]
 				b.nd++
@@ -116,6 +122,7 @@ func (b *decimal) set(s []byte) (ok bool) {
 	if !sawdot {
 		b.dp = b.nd
 	}
+	b.dp += dropped
 
 	// optional exponent moves decimal point.
 	// if we read a very large, very long number,
